@@ -81,42 +81,44 @@ Qed.
 Lemma get_In_keys : forall k t v, get k t = Some v -> List.In k (keys t).
 Proof. intros k t v H. apply memk_In. rewrite has_keys. unfold has. now rewrite H. Qed.
 
-(* update(keys_to_update): the binding of every key is the source's where the filter lets it through *)
-Lemma get_upd_fold : forall dst0 src ktu L acc k,
+(* the final update of forward: the binding of every key is the source's where the filter lets it through (either filter) *)
+Lemma get_upd_fold : forall fx dst0 src ktu L acc k,
   get k (fold_left (fun acc k => match get k src with
-                                 | Some v => if upd_cond dst0 ktu k then set k v acc else acc
+                                 | Some v => if upd_cond_gen fx dst0 ktu k then set k v acc else acc
                                  | None => acc end) L acc)
-  = if memk k L && upd_cond dst0 ktu k && has k src then get k src else get k acc.
+  = if memk k L && upd_cond_gen fx dst0 ktu k && has k src then get k src else get k acc.
 Proof.
-  intros dst0 src ktu L. induction L as [|k1 L IH]; intros acc k; cbn [fold_left].
+  intros fx dst0 src ktu L. induction L as [|k1 L IH]; intros acc k; cbn [fold_left].
   - reflexivity.
   - rewrite IH. cbn [memk existsb]. fold (memk k L).
-    destruct (memk k L && upd_cond dst0 ktu k && has k src) eqn:C1.
+    destruct (memk k L && upd_cond_gen fx dst0 ktu k && has k src) eqn:C1.
     + apply andb_true_iff in C1 as [C1 C3]. apply andb_true_iff in C1 as [C1 C2].
       rewrite C1, C2, C3. now rewrite orb_true_r.
     + destruct (key_eqb k k1) eqn:E; cbn [orb].
       * apply key_eqb_eq in E; subst k1. unfold has. destruct (get k src) eqn:G.
-        -- destruct (upd_cond dst0 ktu k) eqn:U; cbn.
+        -- destruct (upd_cond_gen fx dst0 ktu k) eqn:U; cbn.
            ++ now rewrite get_set, key_eqb_refl.
            ++ reflexivity.
         -- now rewrite andb_false_r.
       * rewrite C1. destruct (get k1 src); [|reflexivity].
-        destruct (upd_cond dst0 ktu k1); [|reflexivity]. now rewrite get_set, E.
+        destruct (upd_cond_gen fx dst0 ktu k1); [|reflexivity]. now rewrite get_set, E.
 Qed.
 
-Lemma get_upd_ktu : forall dst src ktu k,
-  get k (upd_ktu dst src ktu) = if upd_cond dst ktu k && has k src then get k src else get k dst.
+Lemma get_upd_ktu_gen : forall fx dst src ktu k,
+  get k (upd_ktu_gen fx dst src ktu) = if upd_cond_gen fx dst ktu k && has k src then get k src else get k dst.
 Proof.
-  intros. unfold upd_ktu. rewrite get_upd_fold. rewrite has_keys.
+  intros. unfold upd_ktu_gen. rewrite get_upd_fold. rewrite has_keys.
   destruct (has k src) eqn:H; cbn; [|now rewrite andb_false_r].
   now rewrite andb_true_r.
 Qed.
 
-Lemma upd_cond_mem : forall dst ktu k, memk k ktu = true -> upd_cond dst ktu k = true.
-Proof.
-  intros dst ktu k H. unfold upd_cond. rewrite H, orb_true_r, andb_true_r.
-  apply existsb_exists. apply memk_In in H. exists k. split; [assumption|apply String.eqb_refl].
-Qed.
+(* the repaired library: exactly the named keys *)
+Lemma upd_cond_fixed : forall dst ktu k, upd_cond dst ktu k = memk k ktu.
+Proof. reflexivity. Qed.
+
+Lemma get_upd_ktu : forall dst src ktu k,
+  get k (upd_ktu dst src ktu) = if memk k ktu && has k src then get k src else get k dst.
+Proof. intros. now rewrite get_upd_ktu_gen, upd_cond_fixed. Qed.
 
 (* ------------------------------------------------------------------ the spec respects extensional equality *)
 Definition oeqe (a b : option env) : Prop :=
@@ -205,7 +207,7 @@ Lemma regular_leaf : forall l x, regular (Leaf l) = true ->
   fwd_rel (spec_run (leaves (Leaf l)) (env_of x)) (fwd (Leaf l) x None).
 Proof.
   intros l x H. cbn in H. apply andb_true_iff in H as [H1 H2].
-  cbn [leaves spec_run fwd]. unfold fwd_leaf, apply_leaf. rewrite read_all_eread.
+  cbn [leaves spec_run fwd_gen]. unfold fwd_leaf, apply_leaf. rewrite read_all_eread.
   destruct (eread (ins l) (env_of x)) as [args|]; cbn.
   - destruct (linpl l); try discriminate. unfold sel_vals. destruct (lsel l); [discriminate|].
     eexists; split; [reflexivity|]. apply env_of_write_all.
@@ -241,14 +243,14 @@ Proof.
   - now apply regular_leaf.
   - cbn in HR. apply andb_true_iff in HR as [HR H4]. apply andb_true_iff in HR as [HR H3].
     apply andb_true_iff in HR as [H1 H2].
-    cbn [fwd leaves]. unfold seq_copied. destruct (ssel c) eqn:Es; [discriminate|]. cbn [is_some].
+    cbn [fwd_gen leaves]. unfold seq_copied. destruct (ssel c) eqn:Es; [discriminate|]. cbn [is_some].
     destruct (spt c) eqn:Ep; [discriminate|].
     pose proof (regular_run ms IH H4 None x) as HRun. unfold run_rel in HRun. unfold fwd_rel.
     destruct (spec_run (flat_map leaves ms) (env_of x)) as [e'|].
-    + destruct HRun as [cur' [Hc He]]. rewrite Hc. cbn [finish inp_of]. rewrite Es. cbn [is_some].
+    + destruct HRun as [cur' [Hc He]]. rewrite Hc. cbn [finish_gen inp_of]. rewrite Es. cbn [is_some].
       exists cur'. split; [|assumption].
       destruct (sinpl c) as [[| |]|]; try discriminate; reflexivity.
-    + destruct HRun as [cur' Hc]. rewrite Hc. cbn [finish inp_of]. exists cur'. reflexivity.
+    + destruct HRun as [cur' Hc]. rewrite Hc. cbn [finish_gen inp_of]. exists cur'. reflexivity.
 Qed.
 
 (* ------------------------------------------------------------------ seq_is_fold: the top module, any configuration *)
@@ -313,7 +315,7 @@ Lemma leaf_values : forall l x o e', buildable (Leaf l) = true ->
     /\ forall k v, List.In k (out_keys (Leaf l)) -> k <> sink -> e' k = Some v -> get k res = Some v.
 Proof.
   intros l x o e' HB HS. cbn [leaves spec_run] in HS. unfold apply_leaf in HS.
-  cbn [fwd]. unfold fwd_leaf. rewrite read_all_eread.
+  cbn [fwd_gen]. unfold fwd_leaf. rewrite read_all_eread.
   destruct (eread (ins l) (env_of x)) as [args|]; [|discriminate]. inversion HS; subst e'; clear HS.
   assert (W : forall d k v, List.In k (out_keys (Leaf l)) -> k <> sink ->
                 ewrite (leaf_vals l args) (env_of x) k = Some v ->
@@ -340,18 +342,18 @@ Lemma seq_values : forall c ms x o e', top_regular (Seq c ms) = true ->
 Proof.
   intros c ms x o e' HT HS. cbn in HT. apply andb_true_iff in HT as [Hp HR].
   destruct (spt c) eqn:Ep; [discriminate|]. cbn [leaves] in HS.
-  rewrite all_out_keys_in_keys. cbn [fwd]. rewrite Ep.
+  rewrite all_out_keys_in_keys. cbn [fwd_gen]. rewrite Ep.
   assert (HF : Forall (fun n => regular n = true -> forall x, fwd_rel (spec_run (leaves n) (env_of x)) (fwd n x None)) ms).
   { apply Forall_forall. intros n _ Hn. now apply regular_fwd. }
   pose proof (regular_run ms HF HR (if seq_copied c o then Some x else None) x) as HRun.
   unfold run_rel in HRun. rewrite HS in HRun. destruct HRun as [cur' [Hc He]]. rewrite Hc.
   set (ok := seq_okeys c ms).
   assert (U : forall dst ktu k v, List.In k ktu -> e' k = Some v -> get k (upd_ktu dst cur' ktu) = Some v).
-  { intros dst ktu k v Hk Hv. rewrite get_upd_ktu. rewrite (upd_cond_mem _ _ _ (proj2 (memk_In _ _) Hk)).
+  { intros dst ktu k v Hk Hv. rewrite get_upd_ktu. rewrite (proj2 (memk_In _ _) Hk).
     rewrite <- (He k) in Hv. unfold env_of in Hv. unfold has. now rewrite Hv. }
   assert (C : forall k v, e' k = Some v -> get k cur' = Some v).
   { intros k v Hv. rewrite <- (He k) in Hv. exact Hv. }
-  unfold finish, seq_copied. destruct o as [ot|].
+  unfold finish_gen, seq_copied. destruct o as [ot|].
   - do 4 eexists. split; [reflexivity|]. split; [reflexivity|]. intros k v Hk Hv. now apply U.
   - destruct (sinpl c) as [[| |]|] eqn:Ei.
     + destruct (ssel c) eqn:Es; cbn [is_some].
@@ -381,21 +383,21 @@ Lemma seq_raises_iff_fold_fails : forall n x o, top_regular n = true ->
   spec_run (leaves n) (env_of x) = None <-> exists x' o', fwd n x o = Raised x' o'.
 Proof.
   intros [l|c ms] x o HT.
-  - cbn [leaves spec_run fwd]. unfold fwd_leaf, apply_leaf. rewrite read_all_eread.
+  - cbn [leaves spec_run fwd_gen]. unfold fwd_leaf, apply_leaf. rewrite read_all_eread.
     destruct (eread (ins l) (env_of x)); split; intro H.
     + discriminate.
     + destruct H as [x' [o' H]]. destruct o; [discriminate|]. destruct (linpl l); discriminate.
     + do 2 eexists; reflexivity.
     + reflexivity.
   - cbn in HT. apply andb_true_iff in HT as [Hp HR]. destruct (spt c) eqn:Ep; [discriminate|].
-    cbn [leaves fwd]. rewrite Ep.
+    cbn [leaves fwd_gen]. rewrite Ep.
     assert (HF : Forall (fun n => regular n = true -> forall x, fwd_rel (spec_run (leaves n) (env_of x)) (fwd n x None)) ms).
     { apply Forall_forall. intros n _ Hn. now apply regular_fwd. }
     pose proof (regular_run ms HF HR (if seq_copied c o then Some x else None) x) as HRun.
     unfold run_rel in HRun. destruct (spec_run (flat_map leaves ms) (env_of x)); split; intro H.
     + discriminate.
     + exfalso. destruct HRun as [cur' [Hc _]]. rewrite Hc in H. destruct H as [x' [o' H]].
-      unfold finish in H. destruct o; [discriminate|].
+      unfold finish_gen in H. destruct o; [discriminate|].
       destruct (sinpl c) as [[| |]|]; [destruct (if seq_copied c None then Some x else None)| | |]; try discriminate.
       destruct (is_some (ssel c)); [discriminate|].
       destruct (if seq_copied c None then Some x else None); discriminate.
@@ -568,7 +570,7 @@ Proof.
       exists e'. exact H. }
   destruct HS as [e' HS].
   destruct n as [l|c ms].
-  - cbn [fwd]. unfold fwd_leaf. cbn [leaves spec_run] in HS. unfold apply_leaf in HS. rewrite read_all_eread.
+  - cbn [fwd_gen]. unfold fwd_leaf. cbn [leaves spec_run] in HS. unfold apply_leaf in HS. rewrite read_all_eread.
     destruct (eread (ins l) (env_of x)); [|discriminate].
     destruct o; [do 3 eexists; reflexivity|]. destruct (linpl l); do 3 eexists; reflexivity.
   - destruct (seq_values c ms x o e' HT HS) as [x' [o' [r [_ [H _]]]]]. now exists x', o', r.
@@ -677,20 +679,11 @@ Fixpoint noseqsel (n : node) : bool :=
   | Seq c ms => negb (is_some (ssel c)) && forallb noseqsel ms
   end.
 Definition all_outs (n : node) : list key := flat_map outs (leaves n).
-(* no two distinct keys of the universe share their first component (in particular: only top-level keys): the D143
-   region is excluded *)
-Definition sibling_ok (U : list key) : Prop := forall k k', List.In k U -> List.In k' U -> hdk k = hdk k' -> k = k'.
-Definition within (U : list key) (t : td) : Prop := forall k, has k t = true -> List.In k U.
 
 Lemma get_write_all_frame : forall kvs d k, ~ List.In k (map fst kvs) -> get k (write_all kvs d) = get k d.
 Proof.
   intros kvs d k H. change (env_of (write_all kvs d) k = env_of d k). rewrite env_of_write_all.
   apply ewrite_frame. now left.
-Qed.
-Lemma has_write_all : forall kvs d k, has k (write_all kvs d) = true -> has k d = true \/ List.In k (map fst kvs).
-Proof.
-  intros kvs d k H. destruct (in_dec key_dec k (map fst kvs)) as [HI|HI]; [now right|left].
-  unfold has in *. now rewrite get_write_all_frame in H.
 Qed.
 Lemma fst_sel_vals : forall l args k, List.In k (map fst (sel_vals l (leaf_vals l args))) ->
   List.In k (outs l) /\ List.In k (leaf_out l).
@@ -701,25 +694,10 @@ Proof.
     + now apply memk_In.
   - rewrite fst_leaf_vals in H. now split.
 Qed.
-Lemma has_upd_ktu : forall dst src ktu k, has k (upd_ktu dst src ktu) = true -> has k dst = true \/ has k src = true.
+(* D143 repaired: the final update touches the named keys only *)
+Lemma upd_ktu_frame : forall dst src ktu k, ~ List.In k ktu -> get k (upd_ktu dst src ktu) = get k dst.
 Proof.
-  intros dst src ktu k H. unfold has in H. rewrite get_upd_ktu in H.
-  destruct (upd_cond dst ktu k && has k src) eqn:C.
-  - apply andb_true_iff in C as [_ C]. now right.
-  - left. exact H.
-Qed.
-Lemma upd_cond_hd : forall dst ktu k, upd_cond dst ktu k = true -> exists k', List.In k' ktu /\ hdk k' = hdk k.
-Proof.
-  intros dst ktu k H. unfold upd_cond in H. apply andb_true_iff in H as [H _]. apply existsb_exists in H as [k' [Hk E]].
-  exists k'. split; [assumption|]. now apply String.eqb_eq.
-Qed.
-Lemma upd_ktu_frame : forall U dst src ktu k, sibling_ok U -> within U src -> (forall k', List.In k' ktu -> List.In k' U) ->
-  ~ List.In k ktu -> get k (upd_ktu dst src ktu) = get k dst.
-Proof.
-  intros U dst src ktu k HU Hs Hk Hn. rewrite get_upd_ktu.
-  destruct (upd_cond dst ktu k && has k src) eqn:C; [|reflexivity].
-  apply andb_true_iff in C as [C1 C2]. destruct (upd_cond_hd _ _ _ C1) as [k' [Hk' E]].
-  exfalso. apply Hn. rewrite <- (HU k' k (Hk k' Hk') (Hs k C2) E). exact Hk'.
+  intros dst src ktu k Hn. rewrite get_upd_ktu. apply memk_false in Hn. now rewrite Hn.
 Qed.
 
 Lemma out_keys_child : forall ms m k, List.In m ms -> List.In k (out_keys m) -> List.In k (all_out_keys ms).
@@ -727,165 +705,105 @@ Proof.
   intros ms m k Hm Hk. unfold all_out_keys. apply dedup_last_In. fold (iofold ms ([], [])). rewrite iofold_ok.
   cbn. apply in_flat_map. now exists m.
 Qed.
-Lemma out_keys_sub_all_outs : forall n, noseqsel n = true -> buildable n = true ->
-  forall k, List.In k (out_keys n) -> List.In k (all_outs n).
-Proof.
-  induction n as [l|c ms IH] using node_ind'; intros HS HB k Hk.
-  - unfold all_outs. cbn. rewrite app_nil_r. now apply (leaf_out_sub l HB).
-  - cbn in HS. apply andb_true_iff in HS as [H1 H2]. destruct (ssel c) eqn:Es; [discriminate|].
-    cbn in HB. apply andb_true_iff in HB as [HB _].
-    unfold out_keys in Hk. cbn [io snd] in Hk. rewrite Es in Hk. apply (proj1 (dedup_last_In _ _)) in Hk.
-    fold (iofold ms ([], [])) in Hk. rewrite iofold_ok in Hk. cbn in Hk. apply in_flat_map in Hk as [m [Hm Hk]].
-    rewrite Forall_forall in IH. rewrite forallb_forall in H2, HB. specialize (IH m Hm (H2 m Hm) (HB m Hm) k Hk).
-    unfold all_outs in *. cbn. apply in_flat_map in IH as [l [Hl Ho]].
-    apply in_flat_map. exists l. split; [|assumption]. apply in_flat_map. now exists m.
-Qed.
 
-Definition inner_fp (U : list key) (n : node) : Prop :=
-  forall x, within U x ->
-    let oc := fwd n x None in
-    (forall k, ~ List.In k (out_keys n) -> get k (xa oc) = get k x)
-    /\ within U (xa oc)
-    /\ (forall x' o' f, oc = Done x' o' (RFresh f) -> within U f).
+Definition inner_fp (n : node) : Prop :=
+  forall x k, ~ List.In k (out_keys n) -> get k (xa (fwd n x None)) = get k x.
 
-Lemma inner_fp_leaf : forall U l, (forall k, List.In k (outs l) -> List.In k U) -> inner_fp U (Leaf l).
+Lemma inner_fp_leaf : forall l, inner_fp (Leaf l).
 Proof.
-  intros U l HU x Hx. cbn [fwd]. unfold fwd_leaf.
-  assert (Eo : out_keys (Leaf l) = leaf_out l) by reflexivity. rewrite Eo.
-  destruct (read_all (ins l) x) as [args|]; cbn.
-  - destruct (linpl l); cbn.
-    + split; [|split].
-      * intros k Hk. apply get_write_all_frame. intro HI. apply Hk. now apply (fst_sel_vals l args).
-      * intros k Hk. apply has_write_all in Hk as [Hk|Hk]; [now apply Hx|]. apply HU. now apply (fst_sel_vals l args).
-      * intros x' o' f E. discriminate.
-    + split; [reflexivity|]. split; [assumption|]. intros x' o' f E. inversion E; subst.
-      intros k Hk. apply has_write_all in Hk as [Hk|Hk]; [discriminate|]. apply HU. now apply (fst_sel_vals l args).
-    + split; [reflexivity|]. split; [assumption|]. intros x' o' f E. inversion E; subst.
-      intros k Hk. apply has_write_all in Hk as [Hk|Hk]; [discriminate|]. apply HU. now apply (fst_sel_vals l args).
-  - split; [reflexivity|]. split; [assumption|]. intros x' o' f E. discriminate.
+  intros l x k Hk. cbn [fwd_gen]. unfold fwd_leaf.
+  assert (Eo : out_keys (Leaf l) = leaf_out l) by reflexivity. rewrite Eo in Hk.
+  destruct (read_all (ins l) x) as [args|]; cbn; [|reflexivity].
+  destruct (linpl l); cbn; try reflexivity.
+  apply get_write_all_frame. intro HI. apply Hk. now apply (fst_sel_vals l args).
 Qed.
 
 (* invariant of the module loop *)
-Definition run_inv (U okeys : list key) (x : td) (st : (td * option td) + (td * option td)) : Prop :=
+Definition run_inv (okeys : list key) (x : td) (st : (td * option td) + (td * option td)) : Prop :=
   let '(cur, sh) := match st with inl p | inr p => p end in
-  within U cur /\ within U (inp_of cur sh) /\ (forall k, ~ List.In k okeys -> get k (inp_of cur sh) = get k x).
+  forall k, ~ List.In k okeys -> get k (inp_of cur sh) = get k x.
 
-Lemma run_inv_step : forall U okeys pt ms,
-  Forall (inner_fp U) ms -> (forall m k, List.In m ms -> List.In k (out_keys m) -> List.In k okeys) ->
-  forall x cur sh, within U cur -> within U (inp_of cur sh) ->
-    (forall k, ~ List.In k okeys -> get k (inp_of cur sh) = get k x) ->
-    run_inv U okeys x (run_gen fwd pt ms cur sh).
+Lemma run_inv_step : forall okeys pt ms,
+  Forall inner_fp ms -> (forall m k, List.In m ms -> List.In k (out_keys m) -> List.In k okeys) ->
+  forall x cur sh, (forall k, ~ List.In k okeys -> get k (inp_of cur sh) = get k x) ->
+    run_inv okeys x (run_gen fwd pt ms cur sh).
 Proof.
-  intros U okeys pt ms. induction ms as [|m r IH]; intros HF Hsub x cur sh Hc Hi Hg.
+  intros okeys pt ms. induction ms as [|m r IH]; intros HF Hsub x cur sh Hg.
   - cbn. auto.
   - inversion HF as [|? ? Hm Hr]; subst. cbn [run_gen].
     assert (Hsub' : forall m' k, List.In m' r -> List.In k (out_keys m') -> List.In k okeys) by (intros; eapply Hsub; [right|]; eassumption).
     destruct (negb pt || subk (fst (io m)) (keys cur)); [|now apply IH].
-    destruct (Hm cur Hc) as [F1 [F2 F3]].
     assert (Fr : forall k, ~ List.In k okeys -> get k (xa (fwd m cur None)) = get k cur).
-    { intros k Hk. apply F1. intro HI. apply Hk. eapply Hsub; [now left|eassumption]. }
+    { intros k Hk. apply Hm. intro HI. apply Hk. eapply Hsub; [now left|eassumption]. }
     destruct (fwd m cur None) as [cur' o' rr|cur' o'] eqn:E; cbn [xa] in *.
-    + assert (Step : within U (inp_of cur' sh) /\ (forall k, ~ List.In k okeys -> get k (inp_of cur' sh) = get k x)).
-      { destruct sh as [s|]; cbn [inp_of] in *; [now split|]. split; [assumption|].
-        intros k Hk. rewrite Fr; auto. }
-      destruct Step as [S1 S2]. destruct rr as [| |f].
+    + assert (Step : forall k, ~ List.In k okeys -> get k (inp_of cur' sh) = get k x).
+      { destruct sh as [s|]; cbn [inp_of] in *; [assumption|]. intros k Hk. rewrite Fr; auto. }
+      destruct rr as [| |f].
       * now apply IH.
       * now apply IH.
-      * apply IH; try assumption.
-        -- now apply (F3 cur' o' f).
-        -- destruct sh; cbn [inp_of] in *; assumption.
-        -- destruct sh; cbn [inp_of] in *; assumption.
-    + cbn. split; [assumption|]. destruct sh as [s|]; cbn [inp_of] in *; [now split|].
-      split; [assumption|]. intros k Hk. rewrite Fr; auto.
+      * apply IH; try assumption. destruct sh; cbn [inp_of] in *; assumption.
+    + cbn. destruct sh as [s|]; cbn [inp_of] in *; [assumption|]. intros k Hk. rewrite Fr; auto.
 Qed.
 
-Lemma all_outs_child : forall c ms m k, List.In m ms -> List.In k (all_outs m) -> List.In k (all_outs (Seq c ms)).
+Lemma inner_fp_node : forall n, noseqsel n = true -> inner_fp n.
 Proof.
-  intros c ms m k Hm Hk. unfold all_outs in *. cbn. apply in_flat_map in Hk as [l [Hl Hk]].
-  apply in_flat_map. exists l. split; [|assumption]. apply in_flat_map. now exists m.
-Qed.
-
-Lemma inner_fp_node : forall U n, sibling_ok U -> noseqsel n = true -> buildable n = true ->
-  (forall k, List.In k (all_outs n) -> List.In k U) -> inner_fp U n.
-Proof.
-  intros U n HU. induction n as [l|c ms IH] using node_ind'; intros HS HB HO.
-  - apply inner_fp_leaf. intros k Hk. apply HO. unfold all_outs. cbn. now rewrite app_nil_r.
-  - pose proof HS as HS0. pose proof HB as HB0.
-    cbn in HS. apply andb_true_iff in HS as [H1 H2]. destruct (ssel c) eqn:Es; [discriminate|].
-    cbn in HB. apply andb_true_iff in HB as [HB _].
-    assert (HF : Forall (inner_fp U) ms).
-    { rewrite Forall_forall in *. rewrite forallb_forall in H2, HB. intros m Hm. apply IH; [assumption|now apply H2|now apply HB|].
-      intros k Hk. apply HO. now apply (all_outs_child c ms m). }
-    assert (Hok : forall k, List.In k (all_out_keys ms) -> List.In k U).
-    { intros k Hk. apply HO. apply (out_keys_sub_all_outs (Seq c ms) HS0 HB0).
-      unfold out_keys. cbn [io snd]. rewrite Es. exact Hk. }
-    intros x Hx. cbn [fwd]. unfold seq_copied, seq_okeys. rewrite Es. cbn [is_some].
+  induction n as [l|c ms IH] using node_ind'; intros HS.
+  - apply inner_fp_leaf.
+  - cbn in HS. apply andb_true_iff in HS as [H1 H2]. destruct (ssel c) eqn:Es; [discriminate|].
+    assert (HF : Forall inner_fp ms).
+    { rewrite Forall_forall in *. rewrite forallb_forall in H2. intros m Hm. apply IH; [assumption|now apply H2]. }
+    intros x k Hk. cbn [fwd_gen]. unfold seq_copied, seq_okeys. rewrite Es. cbn [is_some].
     assert (Eo : out_keys (Seq c ms) = all_out_keys ms) by (unfold out_keys; cbn [io snd]; now rewrite Es).
-    rewrite Eo.
-    pose proof (run_inv_step U (all_out_keys ms) (spt c) ms HF (out_keys_child ms) x x None Hx Hx (fun k _ => eq_refl)) as Inv.
+    rewrite Eo in Hk.
+    pose proof (run_inv_step (all_out_keys ms) (spt c) ms HF (out_keys_child ms) x x None (fun k _ => eq_refl)) as Inv.
     unfold run_inv in Inv.
-    destruct (run_gen fwd (spt c) ms x None) as [[cur sh]|[cur sh]]; destruct Inv as [I1 [I2 I3]].
-    + cbn [finish]. rewrite Es. cbn [is_some].
+    destruct (run_gen fwd (spt c) ms x None) as [[cur sh]|[cur sh]].
+    + cbn [finish_gen]. rewrite Es. cbn [is_some].
       destruct (sinpl c) as [[| |]|].
       * destruct sh as [s|]; cbn [xa inp_of] in *.
-        -- split; [|split].
-           ++ intros k Hk. rewrite (upd_ktu_frame U); auto.
-           ++ intros k Hk. apply has_upd_ktu in Hk as [Hk|Hk]; auto.
-           ++ intros x' o' f E; discriminate.
-        -- split; [assumption|]. split; [assumption|]. intros x' o' f E; discriminate.
-      * cbn [xa]. split; [assumption|]. split; [assumption|]. intros x' o' f E. inversion E; subst.
-        intros k Hk. apply has_upd_ktu in Hk as [Hk|Hk]; [discriminate|auto].
-      * cbn [xa]. split; [assumption|]. split; [assumption|]. intros x' o' f E. inversion E; subst.
-        intros k Hk. apply has_upd_ktu in Hk as [Hk|Hk]; [discriminate|auto].
-      * destruct sh as [s|]; cbn [xa inp_of] in *.
-        -- split; [assumption|]. split; [assumption|]. intros x' o' f E. inversion E; subst. assumption.
-        -- split; [assumption|]. split; [assumption|]. intros x' o' f E; discriminate.
-    + cbn [finish xa]. split; [assumption|]. split; [assumption|]. intros x' o' f E; discriminate.
+        -- rewrite upd_ktu_frame; auto.
+        -- auto.
+      * cbn [xa inp_of] in *. auto.
+      * cbn [xa inp_of] in *. auto.
+      * destruct sh as [s|]; cbn [xa inp_of] in *; auto.
+    + cbn [finish_gen xa]. auto.
 Qed.
 
-Definition footprint_statement (n : node) (x : td) (o : option td) (k : key) : Prop :=
-  get k (xa (fwd n x o)) = get k x
-  /\ match o, oa (fwd n x o) with
+Definition footprint_statement_gen (fx : bool) (n : node) (x : td) (o : option td) (k : key) : Prop :=
+  get k (xa (fwd_gen fx n x o)) = get k x
+  /\ match o, oa (fwd_gen fx n x o) with
      | Some ot, Some ot' => get k ot' = get k ot
      | None, None => True
      | _, _ => False
      end.
+Notation footprint_statement := (footprint_statement_gen fixed_D143).
 
-(* the top module with or without a tensordict_out: neither the input nor tensordict_out changes outside out_keys *)
-Lemma footprint_partial : forall U n x o, sibling_ok U -> noseqsel n = true -> buildable n = true ->
-  (forall k, List.In k (all_outs n) -> List.In k U) -> within U x ->
-  (forall ot, o = Some ot -> within U ot) ->
+(* the top module with or without a tensordict_out: neither the input nor tensordict_out changes outside out_keys.
+   With D143 repaired no hypothesis on the key universe is left: any keys, any nesting of sequences, any inplace modes. *)
+Lemma footprint_partial : forall n x o, noseqsel n = true ->
   forall k, ~ List.In k (out_keys n) -> footprint_statement n x o k.
 Proof.
-  intros U n x o HU HS HB HO Hx Ho k Hk. unfold footprint_statement. destruct o as [ot|].
-  2:{ destruct (inner_fp_node U n HU HS HB HO x Hx) as [F1 _]. split; [now apply F1|].
-      destruct n as [l|c ms]; cbn [fwd].
+  intros n x o HS k Hk. unfold footprint_statement_gen. destruct o as [ot|].
+  2:{ split; [now apply (inner_fp_node n HS)|].
+      destruct n as [l|c ms]; cbn [fwd_gen].
       - unfold fwd_leaf. destruct (read_all (ins l) x); [destruct (linpl l)|]; exact I.
-      - destruct (run_gen fwd (spt c) ms x (if seq_copied c None then Some x else None)) as [[cur sh]|[cur sh]]; cbn [finish oa]; [|exact I].
+      - destruct (run_gen fwd (spt c) ms x (if seq_copied c None then Some x else None)) as [[cur sh]|[cur sh]]; cbn [finish_gen oa]; [|exact I].
         destruct (sinpl c) as [[| |]|]; [destruct sh| | |destruct (is_some (ssel c)); [|destruct sh]]; exact I. }
-  specialize (Ho ot eq_refl).
   destruct n as [l|c ms].
-  - cbn [fwd]. unfold fwd_leaf.
+  - cbn [fwd_gen]. unfold fwd_leaf.
     assert (Eo : out_keys (Leaf l) = leaf_out l) by reflexivity. rewrite Eo in Hk.
     destruct (read_all (ins l) x) as [args|]; cbn; [|now split]. split; [reflexivity|].
     apply get_write_all_frame. intro HI. apply Hk. now apply (fst_sel_vals l args).
-  - pose proof HS as HS0. pose proof HB as HB0.
-    cbn in HS. apply andb_true_iff in HS as [H1 H2]. destruct (ssel c) eqn:Es; [discriminate|].
-    cbn in HB. apply andb_true_iff in HB as [HB _].
-    assert (HF : Forall (inner_fp U) ms).
-    { apply Forall_forall. rewrite forallb_forall in H2, HB. intros m Hm.
-      apply inner_fp_node; [assumption|now apply H2|now apply HB|].
-      intros k' Hk'. apply HO. now apply (all_outs_child c ms m). }
-    assert (Hok : forall k, List.In k (all_out_keys ms) -> List.In k U).
-    { intros k' Hk'. apply HO. apply (out_keys_sub_all_outs (Seq c ms) HS0 HB0).
-      unfold out_keys. cbn [io snd]. rewrite Es. exact Hk'. }
+  - cbn in HS. apply andb_true_iff in HS as [H1 H2]. destruct (ssel c) eqn:Es; [discriminate|].
+    assert (HF : Forall inner_fp ms).
+    { apply Forall_forall. rewrite forallb_forall in H2. intros m Hm. apply inner_fp_node. now apply H2. }
     assert (Eo : out_keys (Seq c ms) = all_out_keys ms) by (unfold out_keys; cbn [io snd]; now rewrite Es).
-    rewrite Eo in Hk. cbn [fwd]. unfold seq_copied, seq_okeys. rewrite Es.
-    pose proof (run_inv_step U (all_out_keys ms) (spt c) ms HF (out_keys_child ms) x x (Some x) Hx Hx (fun k _ => eq_refl)) as Inv.
+    rewrite Eo in Hk. cbn [fwd_gen]. unfold seq_copied, seq_okeys. rewrite Es.
+    pose proof (run_inv_step (all_out_keys ms) (spt c) ms HF (out_keys_child ms) x x (Some x) (fun k _ => eq_refl)) as Inv.
     unfold run_inv in Inv.
-    destruct (run_gen fwd (spt c) ms x (Some x)) as [[cur sh]|[cur sh]]; destruct Inv as [I1 [I2 I3]]; cbn [finish xa oa].
-    + split; [now apply I3|]. rewrite (upd_ktu_frame U); auto.
-    + split; [now apply I3|reflexivity].
+    destruct (run_gen fwd (spt c) ms x (Some x)) as [[cur sh]|[cur sh]]; cbn [finish_gen xa oa].
+    + split; [now apply Inv|]. rewrite upd_ktu_frame; auto.
+    + split; [now apply Inv|reflexivity].
 Qed.
 
 (* ------------------------------------------------------------------ where the footprint statement still fails (D142) *)
@@ -917,12 +835,16 @@ Proof. reflexivity. Qed.
 Definition d141_node := Leaf (mksel 1 [ka] [ka; kb] [kb]).
 Lemma footprint_D141_repaired : fwd d141_node [(ka, In ka)] None = Done [(ka, In ka); (kb, App 1 1 [In ka])] None RIn.
 Proof. reflexivity. Qed.
-(* D143 (kept: test_update_select pins it): update(keys_to_update=[(n,x)]) copies the sibling (n,y) into a tensordict_out
-   that has no node n *)
+(* D143, the library before the repair ([fx = false]): update(keys_to_update=[(n,x)]) copied the sibling (n,y) into a
+   tensordict_out that has no node n; the same call under the repair *)
 Definition d143_node := Seq dcfg [Leaf (mk 1 [ka] [knx])].
 Definition d143_x : td := [(ka, In ka); (kny, In kny)].
-Lemma footprint_refuted_tout : exists n x ot k, ~ List.In k (out_keys n) /\ noseqsel n = true /\ ~ footprint_statement n x (Some ot) k.
+Lemma footprint_refuted_tout_unrepaired : exists n x ot k, ~ List.In k (out_keys n) /\ noseqsel n = true
+  /\ ~ footprint_statement_gen false n x (Some ot) k.
 Proof.
   exists d143_node, d143_x, [], kny. split; [cbn; intros [H|[]]; discriminate|]. split; [reflexivity|].
   intros [_ H]. vm_compute in H. discriminate.
 Qed.
+Lemma footprint_D143_repaired : fwd d143_node d143_x (Some []) = Done d143_x (Some [(knx, App 1 0 [In ka])]) ROut
+  /\ fwd_gen false d143_node d143_x (Some []) = Done d143_x (Some [(kny, In kny); (knx, App 1 0 [In ka])]) ROut.
+Proof. split; reflexivity. Qed.
